@@ -32,8 +32,12 @@ impl ProgramArchive {
     ) -> Result<ProgramArchive, (FileLibrary, Vec<Report>)> {
         let mut merger = Merger::new();
         let mut reports = vec![];
-        for (file_id, definitions) in program_contents {
-            if let Err(mut errs) = merger.add_definitions(*file_id, definitions) {
+        // Files are merged in the order in which they were parsed, so that the definition
+        // blamed for a duplicated name does not depend on the iteration order of the map.
+        let mut file_ids: Vec<_> = program_contents.keys().copied().collect();
+        file_ids.sort_unstable();
+        for file_id in file_ids {
+            if let Err(mut errs) = merger.add_definitions(file_id, &program_contents[&file_id]) {
                 reports.append(&mut errs);
             }
         }
